@@ -197,6 +197,14 @@ func (w *c19World) st() {
 	for i, g := range k.GetAllGauges(w.ctx) {
 		w.tr.p("g %d %s %s %d %d %s %s %d %d %d", i, g.DepositAmount.Amount, g.DistributedAmount.Amount, g.TriggeredCount, g.TotalTriggers,
 			b2s(g.IsActive), b2s(g.ForSwapFee), c19DenomCode(g.DepositAmount.Denom), int64(g.TriggerDuration/time.Second), g.StartTime.Unix())
+		// the STORED liquidity metadata of the gauge record
+		if meta := g.GetLiquidityMetaData(); meta != nil {
+			var cl strings.Builder
+			for _, c := range meta.ChildPoolIds {
+				fmt.Fprintf(&cl, " %d", c)
+			}
+			w.tr.p("gm %d %d %s %d%s", i, meta.PoolId, b2s(meta.IsMasterPool), len(meta.ChildPoolIds), cl.String())
+		}
 	}
 	for _, e := range k.GetAllEpochInfos(w.ctx) {
 		w.tr.p("e %d %s %d %d", int64(e.Duration/time.Second), b2s(e.StartTime.IsZero()), e.CurrentEpoch, e.CurrentEpochStartTime.Unix())
@@ -301,6 +309,80 @@ func (w *c19World) farmEnv(ctx sdk.Context, g rewardstypes.Gauge) string {
 	return sb.String()
 }
 
+// the same farmers with their farmed value PER POOL, independent of the gauge's stored child list:
+//
+//	ok <#enabled other pools> <ids..> <#farmers> { <acct> <value in the gauge's pool> <k> { <pool> <value> }*k }*
+//
+// the value in another pool is what GetAggregatedChildPoolContributions returns for that single pool (absent when it
+// has no entry for the farmer); from these and the child list of the MESSAGE the model computes the eligibility itself
+func (w *c19World) farmObs(ctx sdk.Context, g rewardstypes.Gauge) string {
+	k := w.a.LiquidityKeeper
+	meta := g.GetLiquidityMetaData()
+	if meta == nil {
+		return "err"
+	}
+	kit, err := k.GetPoolTokenDesrializerKit(ctx, g.AppId, meta.PoolId)
+	if err != nil || kit.Pool.Disabled {
+		return "err"
+	}
+	pair := kit.Pair
+	asset, err := k.GetAssetWhoseOraclePriceExists(ctx, pair.QuoteCoinDenom, pair.BaseCoinDenom)
+	if err != nil {
+		return "err"
+	}
+	var addrs []sdk.AccAddress
+	var sup []sdk.Dec
+	for _, af := range k.GetAllActiveFarmers(ctx, g.AppId, kit.Pool.Id) {
+		addr, err := sdk.AccAddressFromBech32(af.Farmer)
+		if err != nil {
+			continue
+		}
+		x, y, err := k.CalculateXYFromPoolCoin(ctx, kit, af.FarmedPoolCoin)
+		if err != nil {
+			continue
+		}
+		amt := y
+		if pair.QuoteCoinDenom == asset.Denom {
+			amt = x
+		}
+		v, _ := k.CalcAssetPrice(ctx, asset.Id, amt)
+		addrs = append(addrs, addr)
+		sup = append(sup, v.Mul(sdk.NewDec(2)))
+	}
+	var enabled, all []uint64
+	for _, pl := range k.GetAllPools(ctx, g.AppId) {
+		if pl.Id == meta.PoolId {
+			continue
+		}
+		all = append(all, pl.Id)
+		if !pl.Disabled {
+			enabled = append(enabled, pl.Id)
+		}
+	}
+	per := map[uint64]map[string]sdk.Dec{}
+	for _, pid := range all {
+		per[pid] = k.GetAggregatedChildPoolContributions(ctx, g.AppId, []uint64{pid}, addrs)
+	}
+	var sb strings.Builder
+	fmt.Fprintf(&sb, "ok %d", len(enabled))
+	for _, pid := range enabled {
+		fmt.Fprintf(&sb, " %d", pid)
+	}
+	fmt.Fprintf(&sb, " %d", len(addrs))
+	for i, ad := range addrs {
+		var vs strings.Builder
+		n := 0
+		for _, pid := range all {
+			if c, ok := per[pid][ad.String()]; ok {
+				fmt.Fprintf(&vs, " %d %s", pid, c.BigInt())
+				n++
+			}
+		}
+		fmt.Fprintf(&sb, " %d %s %d%s", w.acct(ad.String()), sup[i].BigInt(), n, vs.String())
+	}
+	return sb.String()
+}
+
 // the implementation's own calculation for [coins] of gauge g (nothing is written)
 func (w *c19World) calcLine(ctx sdk.Context, g rewardstypes.Gauge, coins sdk.Int) (line string, okSum sdk.Int, ok bool) {
 	meta := g.GetLiquidityMetaData()
@@ -341,6 +423,7 @@ func (w *c19World) opBegin(dt int64) {
 	dry, _ := w.ctx.CacheContext()
 	for i, g := range gauges {
 		w.tr.p("farm %d %s", i, w.farmEnv(w.ctx, g))
+		w.tr.p("fobs %d %s", i, w.farmObs(w.ctx, g))
 		if !g.ForSwapFee {
 			// the allocation that would be due
 			if g.IsActive && g.TriggeredCount < g.TotalTriggers && g.DepositAmount.Amount.IsUint64() {
@@ -517,7 +600,13 @@ func (w *c19World) opCreateGauge(s c19GaugeSpec) {
 	msg.Kind = &rewardstypes.MsgCreateGauge_LiquidityMetaData{LiquidityMetaData: &rewardstypes.LiquidtyGaugeMetaData{
 		PoolId: s.pool, IsMasterPool: s.master, ChildPoolIds: s.child}}
 	class, _, _ := execMsg(w.a, w.ctx, msg)
-	w.tr.p("op create %d %s %d %d %d %d %s %s %s", c19DenomCode(s.denom), s.dep, s.total, start.Unix(), w.now.Unix(), s.durS, funds, b2s(metaOK), class)
+	// ... followed by the liquidity metadata THE MESSAGE carries: pool, master flag, child-pool list
+	var cl strings.Builder
+	for _, c := range s.child {
+		fmt.Fprintf(&cl, " %d", c)
+	}
+	w.tr.p("op create %d %s %d %d %d %d %s %s %s %d %s %d%s", c19DenomCode(s.denom), s.dep, s.total, start.Unix(), w.now.Unix(), s.durS, funds, b2s(metaOK), class,
+		s.pool, b2s(s.master), len(s.child), cl.String())
 	if class == "ok" && s.dep.IsUint64() {
 		// the implementation's own split of the deposit
 		var sp []uint64
@@ -883,6 +972,67 @@ func c19TinyAlloc(w *c19World, g *rng) {
 	}
 }
 
+// directed: master gauges created through MsgCreateGauge with an explicit child list (none / some / all of the other
+// pools) on the three pools; farmers in master + listed child, master + UNLISTED pool, master only, child only
+func c19MasterList(w *c19World, g *rng) {
+	for _, d := range []string{"ucmdx", "ucmst", "uharbor", "uatom"} {
+		w.opPrice(d, g.pickU(1000000, 2000000, 500000, 12345678), true)
+	}
+	perm := []uint64{w.fx.pools[0], w.fx.pools[1], w.fx.pools[2]}
+	for i := 2; i > 0; i-- {
+		j := g.intn(i + 1)
+		perm[i], perm[j] = perm[j], perm[i]
+	}
+	master, listed, unlisted := perm[0], perm[1], perm[2]
+	amt := func() sdk.Int { return sdk.NewInt(int64(1000+g.intn(1000000)) * g.pickI(1, 1000)) }
+	w.opFarm(1, master, amt()) // master + listed child
+	w.opFarm(1, listed, amt())
+	w.opFarm(2, master, amt()) // master + unlisted pool only
+	w.opFarm(2, unlisted, amt())
+	w.opFarm(3, master, amt()) // master only
+	w.opFarm(4, listed, amt()) // child only
+	if g.chance(60) {
+		w.opFarm(5, master, amt()) // master + both
+		w.opFarm(5, listed, amt())
+		w.opFarm(5, unlisted, amt())
+	}
+	if g.chance(40) {
+		w.opFarm(6, master, amt())
+		w.opFarm(6, []uint64{listed, unlisted}[g.intn(2)], amt())
+	}
+	mk := func(child []uint64) {
+		total := g.pickU(1, 2, 3, 5)
+		dep := sdk.NewIntFromUint64(total).MulRaw(int64(1000+g.intn(1000000))).AddRaw(int64(g.intn(int(total))))
+		w.opCreateGauge(c19GaugeSpec{denom: []string{"ucmdx", "uharbor", "ustake"}[g.intn(3)], dep: dep, total: total,
+			durS: g.pickI(43200, 86400), app: w.fx.appL, pool: master, master: true, child: child, creator: 80})
+	}
+	mk([]uint64{listed}) // some
+	switch g.intn(4) {
+	case 0:
+		mk(nil) // none listed: every other pool
+	case 1:
+		mk([]uint64{listed, unlisted}) // all
+	case 2:
+		mk([]uint64{unlisted})
+	default:
+		mk([]uint64{listed, listed}) // a pool listed twice counts twice
+	}
+	if g.chance(30) {
+		w.opCreateGauge(c19GaugeSpec{denom: "ucmdx", dep: sdk.NewInt(int64(1000 + g.intn(100000))), total: 2, durS: 43200, app: w.fx.appL,
+			pool: listed, master: true, child: []uint64{master}, creator: 80})
+	}
+	nb := 4 + g.intn(5)
+	for b := 0; b < nb; b++ {
+		if g.chance(35) {
+			w.opFarm(1+g.intn(6), perm[g.intn(3)], amt())
+		}
+		if g.chance(20) {
+			w.opUnfarm(1+g.intn(6), perm[g.intn(3)], sdk.NewInt(int64(1+g.intn(100000))))
+		}
+		w.opBegin(g.pickI(43201, 43201, 86401, 50000, 6))
+	}
+}
+
 // directed: a swap-fee gauge holding fees while the pair has two pools and one oracle price is missing
 func c19SwapFee(w *c19World, g *rng) {
 	w.opPrice("ucmst", 1000000, true)
@@ -1157,6 +1307,9 @@ func TestC19(t *testing.T) {
 		case ci%10 == 4:
 			w.header(ci, "hookerr")
 			c19HookErr(w, g)
+		case ci%10 == 5 || ci%10 == 8:
+			w.header(ci, "masterlist")
+			c19MasterList(w, g)
 		default:
 			w.header(ci, "random")
 			c19Random(w, g)
